@@ -127,13 +127,26 @@ func HarnessC13PollardRoundTrip() {
 	n, err := w.p.WriteTo(sw)
 	verifAssume(err == nil)
 	verifAssume(int(n) == len(sw.data))
-	r := c13Reader(sw.data, "pollard")
+	streamLen := len(sw.data)
+	data := sw.data
+	if verifParam("trail", 0) > 0 {
+		// the forest is followed by other data in the same stream: restore must consume only its own bytes
+		data = make([]byte, streamLen, streamLen+verifParam("trail", 0))
+		copy(data, sw.data)
+		for i := 0; i < verifParam("trail", 0); i++ {
+			data = append(data, verifNondetU8("trailing"))
+		}
+	}
+	r := c13Reader(data, "pollard")
 	read, q, err := RestorePollardFrom(r)
-	full := r.limit == len(sw.data)
+	full := r.limit >= streamLen
+	if verifParam("trail", 0) > 0 && err == nil && r.limit == len(data) {
+		verifAssert(r.off == streamLen, "C13.pollard.consumes-only-its-own-bytes")
+	}
 	if full {
 		verifAssert(err == nil, "C13.pollard.restore-ok")
 		if err == nil {
-			verifAssert(int(read) == len(sw.data), "C13.pollard.read-count")
+			verifAssert(int(read) == streamLen, "C13.pollard.read-count")
 		}
 	}
 	if err == nil {
@@ -185,14 +198,26 @@ func HarnessC13MapRoundTrip() {
 	n, err := m.Write(sw)
 	verifAssume(err == nil)
 	verifAssume(n == len(sw.data))
-	r := c13Reader(sw.data, "map")
+	streamLen := len(sw.data)
+	data := sw.data
+	if verifParam("trail", 0) > 0 {
+		data = make([]byte, streamLen, streamLen+verifParam("trail", 0))
+		copy(data, sw.data)
+		for i := 0; i < verifParam("trail", 0); i++ {
+			data = append(data, verifNondetU8("trailing"))
+		}
+	}
+	r := c13Reader(data, "map")
 	q := NewMapPollard(m.Full)
 	read, err := q.Read(r)
-	full := r.limit == len(sw.data)
+	full := r.limit >= streamLen
+	if verifParam("trail", 0) > 0 && err == nil && r.limit == len(data) {
+		verifAssert(r.off == streamLen, "C13.map.consumes-only-its-own-bytes")
+	}
 	if full {
 		verifAssert(err == nil, "C13.map.restore-ok")
 		if err == nil {
-			verifAssert(read == len(sw.data), "C13.map.read-count")
+			verifAssert(read == streamLen, "C13.map.read-count")
 		}
 	}
 	if err == nil {
